@@ -78,10 +78,6 @@ func registerEnvStubs() {
 	stubs["context.WithCancel"] = func(x *Exec, f *Closure, a []Value, cc *ssa.CallCommon) Value {
 		return Tuple{a[0], &Closure{Fn: x.eng.nopFunc()}}
 	}
-	stubs["context.Background"] = func(x *Exec, f *Closure, a []Value, cc *ssa.CallCommon) Value {
-		x.unsupported("context.Background in code under test (harnesses bring their own context)")
-		return nil
-	}
 	stubs["time.NewTimer"] = func(x *Exec, f *Closure, a []Value, cc *ssa.CallCommon) Value {
 		tt := f.Fn.Signature.Results().At(0).Type().(*types.Pointer).Elem()
 		cell := x.newCell(tt)
